@@ -41,7 +41,9 @@ def ingest_attack_graph(graph,
     for node in graph.nodes:
         node_dict = node.to_dict()
         nodes[node.id] = Node(
-            node_dict['asset'] if 'asset' in node_dict else node_dict['id'],
+            # A label has to be a string, also for a node without an asset
+            str(node_dict['asset'] if 'asset' in node_dict \
+                else node_dict['id']),
             name = node_dict['name'],
             full_name = node.full_name,
             type = node_dict['type'],
